@@ -33,6 +33,9 @@ class PyMachine:
             size = int(card["size"])
             fill = int(card["fill"])
             emu.load_memory_card(bytes((fill + i) & 0xFF for i in range(size)), size)
+        xram = cfg.get("xram")
+        if xram:
+            emu.expand_ram(int(xram["size"]), int(xram["start"]))
         emu.reset()
         t = cfg.get("timer") or {}
         # Same knobs the maintainers' tests use (pce500/tests/test_interrupts.py).
@@ -45,6 +48,8 @@ class PyMachine:
             emu.cpu.regs.set(getattr(RegisterName, name), int(val))
         self.emu = emu
         self.windows = [tuple(w) for w in cfg.get("windows", [])]
+        self.probes = [tuple(w) for w in cfg.get("probes", [])]
+        self.sweep = tuple(cfg.get("sweep") or ())
 
     # ------------------------------------------------------------------ events / stepping
     def apply_events(self, evs: Optional[List[List[Any]]]) -> None:
@@ -71,6 +76,30 @@ class PyMachine:
         emu = self.emu
         rc, wc = emu.memory_read_count, emu.memory_write_count
         out = bytes(emu.memory.read_byte(start + i) & 0xFF for i in range(length))
+        emu.memory_read_count, emu.memory_write_count = rc, wc
+        return out
+
+    def bus_probes(self) -> Dict[str, str]:
+        """Bus reads (memory.read_byte) around every region boundary plus a strided sample of the whole
+        external space, hashed per region.  Verdict-relevant: it is memory as the program would read it.
+        LCD windows are skipped (their reads change controller state)."""
+        emu = self.emu
+        rd = emu.memory.read_byte
+        rc, wc = emu.memory_read_count, emu.memory_write_count
+        out: Dict[str, str] = {}
+
+        def lcd(a: int) -> bool:
+            return any(lo <= a <= hi for lo, hi in S.LCD_WINDOWS)
+
+        for name, start, ln in self.probes:
+            out[name] = _h(bytes(rd(a) & 0xFF for a in range(max(0, start), min(0x100000, start + ln))
+                                 if not lcd(a)))
+        if self.sweep:
+            off, stride = int(self.sweep[0]), int(self.sweep[1])
+            for name, lo, hi in S.SWEEP_REGIONS:
+                first = lo + ((off - lo) % stride)
+                out["bus:sweep-" + name] = _h(bytes(rd(a) & 0xFF for a in range(first, hi + 1, stride)
+                                                    if not lcd(a)))
         emu.memory_read_count, emu.memory_write_count = rc, wc
         return out
 
@@ -149,10 +178,15 @@ class PyMachine:
         d["kb_metrics"] = [g(emu, "_kb_strobe_count"), list(g(emu, "_kb_col_hist") or []),
                            list(g(emu, "_last_kil_columns") or []), g(emu, "_last_kol"), g(emu, "_last_koh"),
                            g(emu, "_kil_read_count")]
+        # (no hash of the raw external_memory array: bytes shadowed by a data-backed overlay legitimately differ
+        # after a load -- the loader mirrors the flattened image into the backing array -- and can never be read;
+        # what can be read is covered by bus_probes())
         try:
-            d["ext_hash"] = _h(bytes(emu.memory.external_memory[:0xC0000]))
+            d["overlay_payloads"] = sorted((o.name, _h(bytes(o.data))) for o in emu.memory.overlays
+                                           if o.data is not None and o.start < 0x100000)
         except Exception:
-            d["ext_hash"] = "n/a"
+            d["overlay_payloads"] = "n/a"
+        d.update(self.bus_probes())
         return d
 
     # ------------------------------------------------------------------ snapshots
